@@ -116,15 +116,61 @@ def optFlags (isMax signed : Bool) (fe : Frontend) : List Nat :=
 def Beats (isMax signed : Bool) (bits : Nat) (v w : Nat) : Prop :=
   if isMax then key signed bits w ≤ key signed bits v else key signed bits v ≤ key signed bits w
 
-/-- **the invariant of ModelCacheMixin's state** -/
+/-- under `U` the expression takes one value at most (what `_trivial_model_optimization` knows of `BVS` when the sole
+constraint is `BVS == constant`) -/
+def ConstUnder (U : List Con) (e : Exp) : Prop := ∀ v w, Feasible U e v → Feasible U e w → v = w
+
+theorem ConstUnder.mono {U U' : List Con} {e : Exp} (h : ConstUnder U e) (hf : ∀ v, Feasible U' e v → Feasible U e v) :
+    ConstUnder U' e := fun v w hv hw => h v w (hf v hv) (hf w hw)
+
+/-- **the invariant of ModelCacheMixin's state**.  The marker clauses say what the CODE relies on: every reader of a marker
+(`batch_eval`: `len(results) > 0 and … in self._eval_exhausted`; `min` / `max`: `if len(cached) > 0`) first makes sure that some
+model is cached.  A record with markers and NO cached model exists (`ModelCacheMixin.split` replaces `_models` of a part whose
+`_add` just set the markers of its sole `BVS == constant` constraint): there the marker only says that the expression has one
+value at most — and that is what makes the marker right again as soon as ANY valid model is cached.  With a model cached the
+clause is the old one (`MCInv.evalExh`, `MCInv.opt` below). -/
 structure MCInv (RE : Exp → Prop) (E : Env) (U : List Con) (fe : Frontend) : Prop where
   /-- every cached model (completed with the defaults) satisfies the constraints -/
   valid : ∀ m ∈ fe.models, Models U (m.complete E.dflt)
-  /-- eval-exhausted: every value the expression can take is given by a cached model -/
-  evalExh : ∀ e, RE e → e.id ∈ fe.evalExh → ∀ v, Feasible U e v → ∃ m ∈ fe.models, e.val (m.complete E.dflt) = v
-  /-- max / min (signed / unsigned) exhausted: no value the expression can take beats all cached ones -/
-  opt : ∀ (isMax signed : Bool) e, RE e → e.id ∈ optFlags isMax signed fe → ∀ v, Feasible U e v →
-    ∃ m ∈ fe.models, Beats isMax signed e.bits (e.val (m.complete E.dflt)) v
+  /-- eval-exhausted: the expression has one value at most, or every value it can take is given by a cached model -/
+  evalExhW : ∀ e, RE e → e.id ∈ fe.evalExh →
+    ConstUnder U e ∨ ∀ v, Feasible U e v → ∃ m ∈ fe.models, e.val (m.complete E.dflt) = v
+  /-- max / min (signed / unsigned) exhausted: one value at most, or no value the expression can take beats all cached ones -/
+  optW : ∀ (isMax signed : Bool) e, RE e → e.id ∈ optFlags isMax signed fe →
+    ConstUnder U e ∨ ∀ v, Feasible U e v → ∃ m ∈ fe.models, Beats isMax signed e.bits (e.val (m.complete E.dflt)) v
+
+theorem Beats.refl (isMax signed : Bool) (bits v : Nat) : Beats isMax signed bits v v := by
+  unfold Beats; split <;> exact Int.le_refl _
+
+/-- **under the guard of the code** (a model is cached) a marker means: every value the expression can take is the value of a
+cached model -/
+theorem MCInv.evalExh {RE : Exp → Prop} {E : Env} {U : List Con} {fe : Frontend} (h : MCInv RE E U fe) (hne : fe.models ≠ [])
+    (e : Exp) (he : RE e) (hi : e.id ∈ fe.evalExh) (v : Nat) (hv : Feasible U e v) :
+    ∃ m ∈ fe.models, e.val (m.complete E.dflt) = v := by
+  rcases h.evalExhW e he hi with hc | hs
+  · obtain ⟨m, ms, hms⟩ := List.exists_cons_of_ne_nil hne
+    have hm : m ∈ fe.models := by rw [hms]; simp
+    exact ⟨m, hm, hc _ _ ⟨_, h.valid m hm, rfl⟩ hv⟩
+  · exact hs v hv
+
+theorem MCInv.opt {RE : Exp → Prop} {E : Env} {U : List Con} {fe : Frontend} (h : MCInv RE E U fe) (hne : fe.models ≠ [])
+    (isMax signed : Bool) (e : Exp) (he : RE e) (hi : e.id ∈ optFlags isMax signed fe) (v : Nat) (hv : Feasible U e v) :
+    ∃ m ∈ fe.models, Beats isMax signed e.bits (e.val (m.complete E.dflt)) v := by
+  rcases h.optW isMax signed e he hi with hc | hs
+  · obtain ⟨m, ms, hms⟩ := List.exists_cons_of_ne_nil hne
+    have hm : m ∈ fe.models := by rw [hms]; simp
+    refine ⟨m, hm, ?_⟩
+    rw [hc _ _ ⟨_, h.valid m hm, rfl⟩ hv]
+    exact Beats.refl _ _ _ _
+  · exact hs v hv
+
+/-- the strong clauses give the invariant -/
+theorem MCInv.of_strong {RE : Exp → Prop} {E : Env} {U : List Con} {fe : Frontend}
+    (valid : ∀ m ∈ fe.models, Models U (m.complete E.dflt))
+    (evalExh : ∀ e, RE e → e.id ∈ fe.evalExh → ∀ v, Feasible U e v → ∃ m ∈ fe.models, e.val (m.complete E.dflt) = v)
+    (opt : ∀ (isMax signed : Bool) e, RE e → e.id ∈ optFlags isMax signed fe → ∀ v, Feasible U e v →
+      ∃ m ∈ fe.models, Beats isMax signed e.bits (e.val (m.complete E.dflt)) v) : MCInv RE E U fe :=
+  ⟨valid, fun e he hi => Or.inr (evalExh e he hi), fun isMax signed e he hi => Or.inr (opt isMax signed e he hi)⟩
 
 theorem mcInv_init (RE : Exp → Prop) (E : Env) (U : List Con) (fe : Frontend) (hm : fe.models = [])
     (h1 : fe.evalExh = []) (h2 : fe.maxExh = []) (h3 : fe.minExh = []) (h4 : fe.maxSExh = []) (h5 : fe.minSExh = []) :
@@ -137,20 +183,22 @@ theorem mcInv_init (RE : Exp → Prop) (E : Env) (U : List Con) (fe : Frontend) 
 theorem MCInv.congr {RE : Exp → Prop} {E : Env} {U U' : List Con} {fe : Frontend} (h : MCInv RE E U fe)
     (heq : ∀ a, Models U' a ↔ Models U a) : MCInv RE E U' fe := by
   have hf : ∀ e v, Feasible U' e v → Feasible U e v := fun e v ⟨a, ha, hv⟩ => ⟨a, (heq a).mp ha, hv⟩
-  exact ⟨fun m hm => (heq _).mpr (h.valid m hm), fun e he hi v hv => h.evalExh e he hi v (hf e v hv),
-         fun isMax signed e he hi v hv => h.opt isMax signed e he hi v (hf e v hv)⟩
+  exact ⟨fun m hm => (heq _).mpr (h.valid m hm),
+         fun e he hi => (h.evalExhW e he hi).imp (·.mono (hf e)) (fun h' v hv => h' v (hf e v hv)),
+         fun isMax signed e he hi => (h.optW isMax signed e he hi).imp (·.mono (hf e)) (fun h' v hv => h' v (hf e v hv))⟩
 
 /-- more constraints, the same models, all still valid: the flags stay right -/
 theorem MCInv.strengthen {RE : Exp → Prop} {E : Env} {U U' : List Con} {fe : Frontend} (h : MCInv RE E U fe)
     (himp : ∀ a, Models U' a → Models U a) (hv : ∀ m ∈ fe.models, Models U' (m.complete E.dflt)) : MCInv RE E U' fe := by
   have hf : ∀ e v, Feasible U' e v → Feasible U e v := fun e v ⟨a, ha, hv⟩ => ⟨a, himp a ha, hv⟩
-  exact ⟨hv, fun e he hi v hv => h.evalExh e he hi v (hf e v hv),
-         fun isMax signed e he hi v hv => h.opt isMax signed e he hi v (hf e v hv)⟩
+  exact ⟨hv, fun e he hi => (h.evalExhW e he hi).imp (·.mono (hf e)) (fun h' v hv => h' v (hf e v hv)),
+         fun isMax signed e he hi => (h.optW isMax signed e he hi).imp (·.mono (hf e)) (fun h' v hv => h' v (hf e v hv))⟩
 
 /-- unsatisfiable constraints: any flags, no models -/
 theorem mcInv_unsat (RE : Exp → Prop) (E : Env) (U : List Con) (fe : Frontend) (hun : ¬ Satisfiable U)
     (hm : ∀ m ∈ fe.models, Models U (m.complete E.dflt)) : MCInv RE E U fe :=
-  ⟨hm, fun _ _ _ _ ⟨a, ha, _⟩ => (hun ⟨a, ha⟩).elim, fun _ _ _ _ _ _ ⟨a, ha, _⟩ => (hun ⟨a, ha⟩).elim⟩
+  ⟨hm, fun _ _ _ => Or.inl fun _ _ ⟨a, ha, _⟩ => (hun ⟨a, ha⟩).elim,
+   fun _ _ _ _ _ => Or.inl fun _ _ ⟨a, ha, _⟩ => (hun ⟨a, ha⟩).elim⟩
 
 /-- changing the record outside the mixin's fields -/
 theorem MCInv.of_fields {RE : Exp → Prop} {E : Env} {U : List Con} {fe fe' : Frontend} (h : MCInv RE E U fe)
@@ -158,17 +206,18 @@ theorem MCInv.of_fields {RE : Exp → Prop} {E : Env} {U : List Con} {fe fe' : F
     (h3 : fe'.minExh = fe.minExh) (h4 : fe'.maxSExh = fe.maxSExh) (h5 : fe'.minSExh = fe.minSExh) : MCInv RE E U fe' := by
   have hof : ∀ isMax signed, optFlags isMax signed fe' = optFlags isMax signed fe := by
     intro isMax signed; simp only [optFlags, h2, h3, h4, h5]
-  exact ⟨by rw [hm]; exact h.valid, by rw [hm, h1]; exact h.evalExh,
-         fun isMax signed => by rw [hof, hm]; exact h.opt isMax signed⟩
+  exact ⟨by rw [hm]; exact h.valid, by rw [hm, h1]; exact h.evalExhW,
+         fun isMax signed => by rw [hof, hm]; exact h.optW isMax signed⟩
 
 /-- more cached models (all valid): the flags stay right -/
 theorem MCInv.more_models {RE : Exp → Prop} {E : Env} {U : List Con} {fe : Frontend} (h : MCInv RE E U fe)
     (ms : List PModel) (hsub : ∀ m ∈ fe.models, m ∈ ms) (hv : ∀ m ∈ ms, Models U (m.complete E.dflt)) :
     MCInv RE E U { fe with models := ms } := by
-  refine ⟨hv, fun e he hi v hv' => ?_, fun isMax signed e he hi v hv' => ?_⟩
-  · obtain ⟨m, hm, hx⟩ := h.evalExh e he hi v hv'
+  refine ⟨hv, fun e he hi => (h.evalExhW e he hi).imp id fun h' v hv' => ?_,
+    fun isMax signed e he hi => (h.optW isMax signed e he (by simpa [optFlags] using hi)).imp id fun h' v hv' => ?_⟩
+  · obtain ⟨m, hm, hx⟩ := h' v hv'
     exact ⟨m, hsub m hm, hx⟩
-  · obtain ⟨m, hm, hx⟩ := h.opt isMax signed e he (by simpa [optFlags] using hi) v hv'
+  · obtain ⟨m, hm, hx⟩ := h' v hv'
     exact ⟨m, hsub m hm, hx⟩
 
 /-! ### `_model_hook` -/
@@ -367,12 +416,13 @@ theorem cached_opt {fe : Frontend} (hR : ExpReg RE) (h : MCInv RE E U fe) (isMax
   refine ⟨by rw [hw]; exact ⟨_, h.valid m hm, rfl⟩, fun w hw' => ?_⟩
   rw [hw]
   -- some cached value is at least as good as `w`, and the picked one is at least as good as every cached value
+  have hne : fe.models ≠ [] := List.ne_nil_of_mem hm
   have hex : ∃ m' ∈ fe.models, Beats isMax signed e.bits (e.val (m'.complete E.dflt)) w := by
     rcases hfl with hfl | hfl
-    · obtain ⟨m', hm', hx⟩ := h.evalExh e he hfl w hw'
+    · obtain ⟨m', hm', hx⟩ := h.evalExh hne e he hfl w hw'
       refine ⟨m', hm', ?_⟩
       rw [hx]; unfold Beats; split <;> exact Int.le_refl _
-    · exact h.opt isMax signed e he hfl w hw'
+    · exact h.opt hne isMax signed e he hfl w hw'
   obtain ⟨m', hm', hb⟩ := hex
   have := hbest (e.val (m'.complete E.dflt)) ((mem_cachedValues E fe e [] _).mpr ⟨m', hm', by simp [Models], rfl⟩)
   unfold Beats at hb
@@ -482,7 +532,15 @@ theorem mc_batchEval_fast {sup : Ops} {s : St} (hP : PickOk E) (h : MCInv RE E U
         subst hex
         obtain ⟨a, ha, rfl⟩ := ht
         have hUa : Models U a := (models_append.mp ha).1
-        obtain ⟨m, hm, hx⟩ := h.evalExh e (hre e (by simp)) hfl (e.val a) ⟨a, hUa, rfl⟩
+        have hne' : s.fe.models ≠ [] := by
+          intro h0
+          apply hne
+          cases hall0 : allBatchSolutions E s.fe [e] [] true with
+          | nil => rfl
+          | cons t _ =>
+            obtain ⟨m, hm, _⟩ := (mem_allBatchSolutions E s.fe [e] [] t).mp (by rw [hall0]; simp)
+            rw [h0] at hm; cases hm
+        obtain ⟨m, hm, hx⟩ := h.evalExh hne' e (hre e (by simp)) hfl (e.val a) ⟨a, hUa, rfl⟩
         refine hall hlt _ ((mem_allBatchSolutions E s.fe [e] [] _).mpr ⟨m, hm, by simp [Models], ?_⟩)
         simp [hx]
     · right; omega
